@@ -77,8 +77,12 @@ impl Out {
         Out { b: [0; OUTCAP], n: 0 }
     }
     pub fn put(&mut self, s: &[u8]) {
-        self.b[self.n..self.n + s.len()].copy_from_slice(s);
-        self.n += s.len();
+        let mut i = 0;
+        while i < s.len() {
+            self.b[self.n] = s[i];
+            self.n += 1;
+            i += 1;
+        }
     }
     pub fn put_dec(&mut self, v: usize) {
         // decimal without leading zeros
@@ -238,7 +242,7 @@ pub(crate) fn model(b: &Built) -> Out {
     o
 }
 
-// @harness props=C05,C03 tiers=quick:N=0|N=1|N=12;thorough:N=0|N=1|N=2|N=10|N=11|N=12|N=100|N=101 unwind=12 cap=900 mem=8 covers=4
+// @harness props=C05,C03 tiers=quick:N=0|N=1|N=12;thorough:N=0|N=1|N=2|N=10|N=11|N=12|N=100|N=101 unwind=max(26,N+2) cap=900 mem=8 covers=4
 // @fn Response::new Response::set_body Response::set_content_length Response::set_content_type Response::set_deprecation Response::set_encoding Response::set_server Response::set_allow Response::allow_method Response::write_all StatusLine::write_all ResponseHeaders::write_all ResponseHeaders::write_allow_header ResponseHeaders::write_deprecation_header Response::write_body StatusCode::raw Version::raw Method::raw MediaType::as_str
 // @claim write_all into a Vec equals the documented layout byte for byte (length and an arbitrary index), for symbolic status, version, flags, allow list (0..3 symbolic methods via either setter), server string, optional set_content_length(None) before the body; Content-Length present <=> status not in {100,204} or a body was set, and equals the body length
 // @bounds body: unset (N=0) or N-1 symbolic bytes; status x version symbolic over all 22 combinations; builder calls in one fixed order
@@ -288,8 +292,12 @@ impl Write for ShortSink {
             k = kk;
         }
         self.rest = k < buf.len();
-        self.b[self.n..self.n + k].copy_from_slice(&buf[..k]);
-        self.n += k;
+        let mut i = 0;
+        while i < k {
+            self.b[self.n] = buf[i];
+            self.n += 1;
+            i += 1;
+        }
         Ok(k)
     }
     fn flush(&mut self) -> std::io::Result<()> {
@@ -316,8 +324,13 @@ pub(crate) struct ArrSink {
 }
 impl Write for ArrSink {
     fn write(&mut self, buf: &[u8]) -> std::io::Result<usize> {
-        self.b[self.n..self.n + buf.len()].copy_from_slice(buf);
-        self.n += buf.len();
+        // byte loop, not copy_from_slice: a memcpy to a symbolic offset exhausts CBMC's memory
+        let mut i = 0;
+        while i < buf.len() {
+            self.b[self.n] = buf[i];
+            self.n += 1;
+            i += 1;
+        }
         Ok(buf.len())
     }
     fn flush(&mut self) -> std::io::Result<()> {
@@ -328,7 +341,7 @@ impl Write for ArrSink {
     }
 }
 
-// @harness props=C05 tiers=quick:N=4;thorough:N=4|N=12 unwind=12 cap=900 mem=8 covers=1
+// @harness props=C05 tiers=quick:N=4;thorough:N=4|N=12 unwind=max(26,N+2) cap=900 mem=8 covers=1
 // @fn Response::write_all StatusLine::write_all ResponseHeaders::write_all Response::write_body
 // @claim a sink that accepts only part of a write receives exactly the bytes a Vec receives
 // @bounds body of N-1 symbolic bytes; every write_all burst is split once at a symbolic point (1..len) and then completed
